@@ -161,7 +161,14 @@ var passAlphabet = []byte("0123456789abcdefghijklmnopqrstuvwxyzABCDEFGHIJKLMNOPQ
 
 // FreshPass returns a well-formed 24-character passphrase that cannot occur by accident.
 func FreshPass(r *vh.Rng) []byte {
-	b := make([]byte, r.Range(12, 40)) // lengths vary: code that copies a passphrase into a buffer of the old length must show
+	n := r.Range(12, 40) // lengths vary: code that copies a passphrase into a buffer of the old length must show
+	switch r.Intn(8) { // the boundaries of the legal lengths are favoured: code that truncates or pads at them must show
+	case 0, 1:
+		n = 40
+	case 2:
+		n = 6
+	}
+	b := make([]byte, n)
 	for i := range b {
 		b[i] = passAlphabet[r.Intn(len(passAlphabet))]
 	}
@@ -259,6 +266,16 @@ func (e *Env) pass(class string) ([]byte, string) {
 		// that only derives the key cannot tell it from the current passphrase - but it is a different passphrase
 		if m.Priv != nil {
 			return append(append([]byte{}, m.Priv...), make([]byte, e.Rng.Range(1, 3))...), "curnul"
+		}
+		return FreshPass(e.Rng), "other"
+	case "curlong":
+		// the current passphrase with legal characters appended, also beyond the longest legal length
+		if m.Priv != nil {
+			p := append([]byte{}, m.Priv...)
+			for i, n := 0, e.Rng.Range(1, 8); i < n; i++ {
+				p = append(p, passAlphabet[e.Rng.Intn(len(passAlphabet))])
+			}
+			return p, "curlong"
 		}
 		return FreshPass(e.Rng), "other"
 	case "bad":
@@ -597,6 +614,9 @@ func (e *Env) Do(op Op) Res {
 			}
 		case "bad", "empty", "pub":
 			old, pc = e.pass(op.PC)
+		case "expnul":
+			// the export's passphrase followed by NUL bytes: a different passphrase (see class curnul)
+			old = append(append([]byte{}, ex.Pass...), make([]byte, e.Rng.Range(1, 3))...)
 		default:
 			old = FreshPass(e.Rng)
 			pc = "other"
